@@ -59,6 +59,9 @@ impl<R: Read + Seek> ReadBox<&mut R> for MdiaBox {
                     "mdia box contains a box with a larger size than it",
                 ));
             }
+            if s == 0 {
+                return Err(Error::InvalidData("mdia box contains a box with size 0"));
+            }
 
             match name {
                 BoxType::MdhdBox => {
